@@ -263,7 +263,7 @@ def spanish():
                      "desc": f"put {digits}" + (f", marker `{mk}`" if mk else "") + (" (fraction)" if kind == "f" else "")})
     card = {"cero": "0", "un": "1", "uno": "1", "una": "1", "dos": "2", "tres": "3", "cuatro": "4", "cinco": "5", "seis": "6", "siete": "7", "ocho": "8",
             "nueve": "9", "diez": "10", "once": "11", "doce": "12", "trece": "13", "catorce": "14", "quince": "15", "dieciséis": "16", "dieciseis": "16",
-            "diecisiete": "17", "dieciocho": "18", "diecinueve": "19", "veinte": "20", "veintiuno": "21", "veintiuna": "21", "veintiún": "21", "veintidós": "22", "veintitrés": "23",
+            "diecisiete": "17", "dieciocho": "18", "diecinueve": "19", "veinte": "20", "veintiuno": "21", "veintiuna": "21", "veintiún": "21", "veintidós": "22", "veintitrés": "23", "veintidos": "22", "veintitres": "23",
             "veinticuatro": "24", "veinticinco": "25", "veintiséis": "26", "veintisiete": "27", "veintiocho": "28", "veintinueve": "29", "treinta": "30",
             "cuarenta": "40", "cincuenta": "50", "sesenta": "60", "setenta": "70", "ochenta": "80", "noventa": "90", "cien": "100", "ciento": "100",
             "doscientos": "200", "doscientas": "200", "trescientos": "300", "trescientas": "300", "cuatrocientos": "400", "cuatrocientas": "400",
@@ -290,9 +290,9 @@ def spanish():
 
     # python mirror of the string-level functions (used only to state what the closed computations must return)
     def lemma_of(w):
-        if (w.endswith("os") and w != "dos") or w.endswith("as"):
+        if (w.endswith("os") and w not in ("dos", "veintidos")) or w.endswith("as"):
             return w.rstrip("s")
-        if w.endswith("es") and w != "tres":
+        if w.endswith("es") and w not in ("tres", "veintitres"):
             x = w
             while x.endswith("es"):
                 x = x[:-2]
